@@ -18,7 +18,7 @@ sys.path.insert(0, os.path.join(ROOT, 'tools'))
 from props import PROPS  # noqa: E402
 
 ALLOWED_AXIOMS_DEFAULT = set()
-HYGIENE_RE = re.compile(r'\b(Admitted|admit|Axiom|Axioms|Parameter|Parameters|Conjecture|Conjectures|Hypothesis|Hypotheses)\b|Unset Guard|bypass_check|type-in-type|impredicative-set|Admit Obligations|Unset Positivity|Unset Universe Checking')
+HYGIENE_RE = re.compile(r'\b(Admitted|admit|Axiom|Axioms|Parameter|Parameters|Conjecture|Conjectures)\b|Unset Guard|bypass_check|type-in-type|impredicative-set|Admit Obligations|Unset Positivity|Unset Universe Checking')
 
 
 def sh(cmd, cwd=None, timeout=None, env=None):
@@ -61,8 +61,8 @@ def hygiene():
                 depth += 1
             if re.match(r'\s*End\b', line) and depth > 0:
                 depth -= 1
-            if re.match(r'\s*(Variable|Variables|Context)\b', line) and depth == 0:
-                bad.append(f'{os.path.relpath(f, ROOT)}: Variable outside a section')
+            if re.match(r'\s*(Variable|Variables|Context|Hypothesis|Hypotheses)\b', line) and depth == 0:
+                bad.append(f'{os.path.relpath(f, ROOT)}: Variable/Hypothesis outside a section')
     return bad
 
 
@@ -223,7 +223,7 @@ def main():
         else:
             # ---- (5) run the implementation
             exe = os.path.join(tdir, 'debug', cfg['bin'])
-            cmd = [exe, '--seed', str(seed), '--n', str(n), '--out', work] + cfg.get('bin_args', [])
+            cmd = [exe, '--seed', str(seed), '--n', str(n), '--out', work] + cfg.get('bin_args', []) + (cfg.get('thorough_args', []) if tier == 'thorough' else [])
             if replay and 'idx' in rj:
                 cmd += ['--only', str(rj['idx'])]
             rc, out, dt = sh(cmd, cwd=work, timeout=cfg.get('run_timeout', 3000))
